@@ -56,6 +56,12 @@ def gen_cases(tier, seed):
         cases.append({"shells": shells, "orders": orders, "origin": [float(v) for v in origin], "transform": T, "shift": shift,
                       "classes": classes + ["origin:" + ok, tcls, "ntriples:%d" % nt] + ["o:%d%d%d" % tuple(o) for o in orders],
                       "cost": (2 if shift else 1) * sum((3 + a) * (3 + b) * len(x["e"]) * len(y["e"]) * (1 + max(max(o) for o in orders)) for x, a in zip(shells, ls) for y, b in zip(shells, ls))})
+    for k, (la, lb) in enumerate(itertools.product(range(4), repeat=2)):
+        rng = bases.rng_for("C07", seed, tier, "displaced", la, lb)
+        shells, classes = bases.displaced_pair(rng, la, lb)
+        orders = [list(ALL[int(rng.integers(len(ALL)))]) for _ in range(3)] + [[0, 0, 0]]
+        cases.append({"shells": shells, "orders": orders, "origin": [float(v) for v in np.array(shells[0]["c"]) + rng.normal(size=3)], "transform": None, "shift": False,
+                      "classes": classes + ["origin:off", "T:none", "ntriples:4"] + ["o:%d%d%d" % tuple(o) for o in orders], "cost": 60})
     return cases
 
 
